@@ -263,12 +263,13 @@ Definition wit_basket : basket :=
   mkB 2000 [mkT 1 PREC 2000 true true true] [] 0 0 PREC 3600 1 1000000000000 1 1000000000000 1 1000000000000 false false false.
 Definition wit_state : state :=
   init_state wit_basket
-    (fun a d => if (a =? 0) && (d =? 1) then 2000 else if ((a =? 1) || (a =? 2)) && (d =? 0) then 1000 else 0) 2000.
+    (fun a d => if (a =? 0) && (d =? 1) then 2000 else if ((a =? 1) || (a =? 2)) && (d =? 0) then 1000 else 0) 2000 [].
 (* the tree as it is (68b9c08 keeps the amount in EditBasket), the tree before that commit, and
    the tree with every proposed repair *)
-Definition current : variant := mkV false true false.
-Definition before_68b9c08 : variant := mkV false false false.
-Definition repaired : variant := mkV true true true.
+Definition current : variant := mkV false true true false.
+Definition before_68b9c08 : variant := mkV false false false false.
+Definition before_853c45f : variant := mkV false true false false.
+Definition repaired : variant := mkV true true true true.
 
 Lemma wit_burn_current_b :
   match burn current wit_state 0 1 0 1000 with
@@ -307,7 +308,7 @@ Qed.
 (* the holder of the whole supply cannot redeem it on the current code (division by zero) ... *)
 Definition sole_state : state :=
   init_state (mkB 5000 [mkT 1 PREC 5000 true true true] [] 0 0 PREC 3600 1 1000000000000 1 1000000000000 1 1000000000000 false false false)
-    (fun a d => if (a =? 0) && (d =? 1) then 5000 else if (a =? 1) && (d =? 0) then 5000 else 0) 5000.
+    (fun a d => if (a =? 0) && (d =? 1) then 5000 else if (a =? 1) && (d =? 0) then 5000 else 0) 5000 [].
 Theorem burn_whole_supply_panics_current : burn current sole_state 0 1 0 5000 = Panic "division by zero".
 Proof. vm_compute. reflexivity. Qed.
 (* ... and gets exactly the reserves with the repaired order *)
@@ -346,9 +347,14 @@ Proof.
     + injection H as <-. exact I.
 Qed.
 (* ---------------------------------------------------------------- books match the bank *)
+(* recorded reserves + surplus of the other baskets, per denomination *)
+Definition sibs_total (l : list basket) (d : Z) : Z :=
+  zsum (map (fun b => rsum (b_tokens b) d + ssum (b_surplus b) d) l).
+(* supply = recorded amount of basket 1, and the module account holds, per denomination, at least the
+   recorded reserves and surplus of ALL baskets together *)
 Definition Books (s : state) : Prop :=
   s_supply s = b_amount (s_bk s) /\
-  forall d, rsum (b_tokens (s_bk s)) d + ssum (b_surplus (s_bk s)) d <= s_bal s MODULE d.
+  forall d, rsum (b_tokens (s_bk s)) d + ssum (b_surplus (s_bk s)) d + sibs_total (s_sibs s) d <= s_bal s MODULE d.
 
 Lemma add_token_rsum : forall ts d x d', find_token ts d <> None ->
   rsum (add_token ts d x) d' = rsum ts d' + (if d =? d' then x else 0).
@@ -385,7 +391,7 @@ Qed.
 Lemma mint_books : forall s now a dep s', mint s now a dep = Ok s' -> a <> MODULE -> Books s -> Books s'.
 Proof.
   unfold mint, Books. intros s now a dep s' H Ha [B1 B2]. inv_ok H. injection H as <-.
-  cbn [s_supply s_bk s_bal b_amount b_tokens b_surplus set_amount set_tokens]. split; [lia|].
+  cbn [s_supply s_bk s_bal s_sibs b_amount b_tokens b_surplus set_amount set_tokens]. split; [lia|].
   intros d. rewrite (inc_tokens_rsum _ _ _ E0 d), bal_add_at, send_spec by congruence.
   specialize (B2 d). unfold MODULE in *. destruct (0 =? a) eqn:Q; [lia|]. simpl. lia.
 Qed.
@@ -393,20 +399,20 @@ Qed.
 Lemma burn_books : forall v s now a d x s', burn v s now a d x = Ok s' -> a <> MODULE -> Books s -> Books s'.
 Proof.
   unfold burn, Books. intros v s now a d x s' H Ha [B1 B2]. inv_ok H. injection H as <-.
-  cbn [s_supply s_bk s_bal b_amount b_tokens b_surplus set_amount set_tokens]. split; [lia|].
+  cbn [s_supply s_bk s_bal s_sibs b_amount b_tokens b_surplus set_amount set_tokens]. split; [lia|].
   intros d'. rewrite (dec_tokens_rsum _ _ _ E2 d'), send_spec, bal_add_at by (unfold MODULE in *; lia).
   specialize (B2 d'). unfold MODULE in *. destruct (0 =? a) eqn:Q; [lia|]. simpl. lia.
 Qed.
 
 (* swap: while the pairs are processed the module also holds what is still to be paid out *)
 Definition fee_ok (b : basket) : Prop := 0 <= b_fee b <= PREC.
-Definition AccInv (acc : swap_acc) : Prop :=
-  forall d, rsum (a_ts acc) d + ssum (a_sur acc) d + ssum (a_outs acc) d <= a_bal acc MODULE d.
+Definition AccInv (k : Z -> Z) (acc : swap_acc) : Prop :=
+  forall d, rsum (a_ts acc) d + ssum (a_sur acc) d + ssum (a_outs acc) d + k d <= a_bal acc MODULE d.
 
-Lemma swap_pair_inv : forall b now a acc p acc', swap_pair b now a acc p = Ok acc' ->
-  a <> MODULE -> fee_ok b -> AccInv acc -> AccInv acc'.
+Lemma swap_pair_inv : forall k b now a acc p acc', swap_pair b now a acc p = Ok acc' ->
+  a <> MODULE -> fee_ok b -> AccInv k acc -> AccInv k acc'.
 Proof.
-  unfold swap_pair, AccInv, fee_ok. intros b now a acc [[din xin] dout] acc' H Ha Hf I.
+  unfold swap_pair, AccInv, fee_ok. intros k b now a acc [[din xin] dout] acc' H Ha Hf I.
   inv_ok H. injection H as <-. cbn [a_ts a_sur a_bal a_outs]. intros d. specialize (I d).
   apply dmul_int_l in E0.
   assert (F1 : find_token (a_ts acc) din <> None) by congruence.
@@ -423,10 +429,10 @@ Proof.
   - rewrite ssum_coins_add. destruct (din =? d) eqn:Q1, (dout =? d) eqn:Q2, (d =? din) eqn:Q3; simpl; lia.
   - destruct (din =? d) eqn:Q1, (dout =? d) eqn:Q2, (d =? din) eqn:Q3; simpl; lia.
 Qed.
-Lemma swap_pairs_inv : forall ps b now a acc acc', swap_pairs b now a acc ps = Ok acc' ->
-  a <> MODULE -> fee_ok b -> AccInv acc -> AccInv acc'.
+Lemma swap_pairs_inv : forall k ps b now a acc acc', swap_pairs b now a acc ps = Ok acc' ->
+  a <> MODULE -> fee_ok b -> AccInv k acc -> AccInv k acc'.
 Proof.
-  induction ps as [|p r IH]; simpl; intros b now a acc acc' H Ha Hf I.
+  intros k. induction ps as [|p r IH]; simpl; intros b now a acc acc' H Ha Hf I.
   - injection H as <-. exact I.
   - destruct (swap_pair b now a acc p) as [acc1| |] eqn:E; simpl in H; try discriminate.
     eapply IH; eauto. eapply swap_pair_inv; eauto.
@@ -443,9 +449,9 @@ Qed.
 Lemma swap_books : forall s now a ps s', swap s now a ps = Ok s' -> a <> MODULE -> fee_ok (s_bk s) -> Books s -> Books s'.
 Proof.
   unfold swap, Books. intros s now a ps s' H Ha Hf [B1 B2]. inv_ok H. injection H as <-.
-  cbn [s_supply s_bk s_bal b_amount b_tokens b_surplus set_surplus set_tokens]. split; [exact B1|].
+  cbn [s_supply s_bk s_bal s_sibs b_amount b_tokens b_surplus set_surplus set_tokens]. split; [exact B1|].
   intros d.
-  assert (I : AccInv a1).
+  assert (I : AccInv (sibs_total (s_sibs s)) a1).
   { eapply swap_pairs_inv; eauto. unfold AccInv. cbn [a_ts a_sur a_bal a_outs]. intros d0. rewrite ssum_nil. specialize (B2 d0). lia. }
   specialize (I d). pose proof (final_outs_sum _ _ _ E2 d) as FS.
   rewrite ssum_coins_add_all, send_spec by (unfold MODULE in *; lia).
@@ -464,6 +470,72 @@ Proof.
     + injection H as <-. rewrite !rsum_cons. lia.
 Qed.
 
+(* ---------------------------------------------------------------- proposals over several baskets *)
+Lemma sibs_total_cons : forall b l d, sibs_total (b :: l) d = rsum (b_tokens b) d + ssum (b_surplus b) d + sibs_total l d.
+Proof. reflexivity. Qed.
+Lemma sibs_total_upd : forall l n b d, nth_error l n = Some b ->
+  sibs_total (upd_nth l n (set_surplus b [])) d = sibs_total l d - ssum (b_surplus b) d.
+Proof.
+  induction l as [|x r IH]; intros n b d H; [destruct n; discriminate|].
+  destruct n as [|k]; cbn [nth_error upd_nth] in *.
+  - injection H as <-. rewrite !sibs_total_cons. cbn [set_surplus b_tokens b_surplus]. rewrite ssum_nil. lia.
+  - rewrite !sibs_total_cons, (IH _ _ _ H). lia.
+Qed.
+Lemma sibs_total_app1 : forall l b d, sibs_total (l ++ [b]) d = sibs_total l d + rsum (b_tokens b) d + ssum (b_surplus b) d.
+Proof.
+  induction l as [|x r IH]; intros b d; cbn [app]; rewrite ?sibs_total_cons.
+  - unfold sibs_total. cbn [map zsum fold_right]. lia.
+  - rewrite IH. lia.
+Qed.
+Lemma create_tokens_rsum : forall new seen ts, create_tokens seen new = Ok ts -> forall d, rsum ts d = 0.
+Proof.
+  induction new as [|t r IH]; cbn [create_tokens]; intros seen ts H d; [injection H as <-; reflexivity|].
+  destruct (t_weight t =? 0); [discriminate|]. destruct (has_denom seen (t_denom t)); [discriminate|].
+  destruct (create_tokens (t :: seen) r) as [rest| |] eqn:E; cbn [bind] in H; try discriminate. injection H as <-.
+  rewrite rsum_cons, (IH _ _ E d). cbn [with_amount t_denom t_amount]. destruct (t_denom t =? d); lia.
+Qed.
+
+(* what a surplus withdrawal leaves alone: supply, histories, and everything of basket 1 but its surplus *)
+Definition same_but_surplus (s s' : state) : Prop :=
+  s_supply s' = s_supply s /\ b_tokens (s_bk s') = b_tokens (s_bk s) /\ b_amount (s_bk s') = b_amount (s_bk s)
+  /\ b_fee (s_bk s') = b_fee (s_bk s).
+Lemma withdraw_ids_books : forall ids s target s', withdraw_ids s target ids = Ok s' -> target <> MODULE ->
+  Books s -> Books s' /\ same_but_surplus s s'.
+Proof.
+  induction ids as [|id r IH]; cbn [withdraw_ids]; intros s target s' H Ht B.
+  - injection H as <-. split; [exact B|repeat split].
+  - destruct (get_bk s id) as [b|] eqn:G; [|discriminate].
+    destruct (negb (has_funds (s_bal s) MODULE (b_surplus b))); [discriminate|].
+    set (s1 := put_bk s id (send (s_bal s) MODULE target (b_surplus b)) (set_surplus b [])) in *.
+    assert (B1 : Books s1 /\ same_but_surplus s s1).
+    { destruct B as [Ba Bb]. unfold get_bk in G. unfold s1, put_bk. destruct (id =? 1) eqn:Q.
+      - injection G as <-. split; [|repeat split]. split; [exact Ba|]. intros d.
+        cbn [s_bk s_bal s_sibs set_surplus b_tokens b_surplus]. rewrite send_spec, ssum_nil by (unfold MODULE in *; lia).
+        specialize (Bb d). unfold MODULE in *. destruct (0 =? target) eqn:Q2; [lia|]. cbn [Z.eqb]. lia.
+      - destruct (id <? 2); [discriminate|]. split; [|repeat split]. split; [exact Ba|]. intros d.
+        cbn [s_bk s_bal s_sibs]. rewrite send_spec, (sibs_total_upd _ _ _ d G) by (unfold MODULE in *; lia).
+        specialize (Bb d). unfold MODULE in *. destruct (0 =? target) eqn:Q2; [lia|]. cbn [Z.eqb]. lia. }
+    destruct B1 as [B1 F1]. destruct (IH _ _ _ H Ht B1) as [B' F']. split; [exact B'|].
+    destruct F1 as (a1 & a2 & a3 & a4), F' as (c1 & c2 & c3 & c4). repeat split; congruence.
+Qed.
+Lemma withdraw_ids_frame : forall ids s target s', withdraw_ids s target ids = Ok s' -> same_but_surplus s s'.
+Proof.
+  induction ids as [|id r IH]; cbn [withdraw_ids]; intros s target s' H.
+  - injection H as <-. repeat split.
+  - destruct (get_bk s id) as [b|] eqn:G; [|discriminate].
+    destruct (negb (has_funds (s_bal s) MODULE (b_surplus b))); [discriminate|].
+    apply IH in H. destruct H as (c1 & c2 & c3 & c4).
+    assert (F1 : same_but_surplus s (put_bk s id (send (s_bal s) MODULE target (b_surplus b)) (set_surplus b []))).
+    { unfold get_bk in G. unfold put_bk. destruct (id =? 1); [injection G as <-|]; repeat split. }
+    destruct F1 as (a1 & a2 & a3 & a4). repeat split; congruence.
+Qed.
+Lemma create_books : forall v s new s', create v s new = Ok s' -> Books s -> Books s' /\ s_bk s' = s_bk s /\ s_supply s' = s_supply s.
+Proof.
+  unfold create. intros v s new s' H [Ba Bb]. inv_ok H. injection H as <-. split; [|split; reflexivity].
+  split; [exact Ba|]. intros d. cbn [s_bk s_bal s_sibs]. rewrite sibs_total_app1.
+  destruct (v_create_zero v); cbn [set_surplus set_tokens set_amount b_tokens b_surplus]; rewrite (create_tokens_rsum _ _ _ E d), ssum_nil; specialize (Bb d); lia.
+Qed.
+
 (* operations of holders (never the module account itself), emergency switches, hooks, end block,
    weight slashes.  Edits are treated separately below; the pool-upsert hook is excluded (refuted). *)
 Definition op_ok (o : op) : Prop :=
@@ -471,6 +543,7 @@ Definition op_ok (o : op) : Prop :=
   | OMint _ a _ | OBurn _ a _ _ | OSwap _ a _ => a <> MODULE
   | OEdit _ => False
   | OUpsertHook se => se = false
+  | OWithdraw _ target => target <> MODULE
   | _ => True
   end.
 Definition Inv (s : state) : Prop := Books s /\ fee_ok (s_bk s).
@@ -487,9 +560,11 @@ Proof.
   - injection H as <-. split; assumption.
   - destruct (slash_token (b_tokens (s_bk s)) d slash) as [ts| |] eqn:E; cbn [bind] in H; try discriminate.
     injection H as <-. split; [|exact F]. destruct B as [B1 B2]. split; [exact B1|].
-    intros d'. cbn [with_bk s_bk s_bal set_tokens b_tokens b_surplus]. rewrite (slash_token_rsum _ _ _ _ E d'). apply B2.
+    intros d'. cbn [with_bk s_bk s_bal s_sibs set_tokens b_tokens b_surplus]. rewrite (slash_token_rsum _ _ _ _ E d'). apply B2.
   - injection H as <-. split; assumption.
   - subst stake_enabled. cbn [andb] in H. injection H as <-. split; assumption.
+  - destruct (withdraw_ids_books _ _ _ _ H Hok B) as [B' (_ & _ & _ & Ff)]. split; [exact B'|]. unfold fee_ok in *. rewrite Ff. exact F.
+  - destruct (create_books _ _ _ _ H B) as [B' [Eb _]]. split; [exact B'|]. rewrite Eb. exact F.
 Qed.
 
 Theorem books_match_bank : forall v ops s, Forall op_ok ops -> Inv s -> Inv (run v s ops).
@@ -519,8 +594,8 @@ Definition edit_wit : basket :=
   mkB 0 [mkT 1 PREC 0 true true true] [] 20000000000000000 0 PREC 3600 1 1000000000000 1 1000000000000 1 1000000000000 false false false.
 Lemma wit_books : Books wit_state.
 Proof.
-  split; [reflexivity|]. intros d. unfold wit_state, init_state, wit_basket. cbn [s_bk s_bal b_tokens b_surplus].
-  rewrite rsum_cons, ssum_nil, rsum_nil. cbn [t_denom t_amount]. unfold MODULE.
+  split; [reflexivity|]. intros d. unfold wit_state, init_state, wit_basket. cbn [s_bk s_bal s_sibs b_tokens b_surplus].
+  change (sibs_total [] d) with 0. rewrite rsum_cons, ssum_nil, rsum_nil. cbn [t_denom t_amount]. unfold MODULE.
   change ((0 =? 0) && (d =? 1)) with (d =? 1).
   change (((0 =? 1) || (0 =? 2)) && (d =? 0)) with false. destruct (1 =? d) eqn:Q, (d =? 1) eqn:Q2; lia.
 Qed.
@@ -533,7 +608,7 @@ Proof.
   exists s'. split; [exact wit_books|]. split; [reflexivity|]. lia.
 Qed.
 (* the pool-upsert hook replaces the record: supply in circulation, recorded amount zero *)
-Theorem books_upsert_hook_refuted : exists s, Books s /\ ~ Books (apply current s (OUpsertHook true)).
+Theorem books_upsert_hook_refuted : exists s, Books s /\ ~ Books (apply before_853c45f s (OUpsertHook true)).
 Proof.
   exists wit_state. split; [exact wit_books|]. intros [B _]. vm_compute in B. discriminate.
 Qed.
@@ -699,6 +774,7 @@ Definition op_okE (v : variant) (o : op) : Prop :=
   | OMint _ a _ | OBurn _ a _ _ | OSwap _ a _ => a <> MODULE
   | OEdit new => v_edit_keep v = true /\ fee_ok new
   | OUpsertHook se => se = false \/ v_upsert_skip v = true
+  | OWithdraw _ target => target <> MODULE
   | _ => True
   end.
 
@@ -716,17 +792,20 @@ Proof.
   - destruct Hok as [Hv Hf]. unfold edit in H. rewrite Hv in H. inv_ok H. injection H as <-.
     destruct (edit_tokens_spec _ _ _ _ E N) as [Rn Rd]. destruct B as [B1 B2].
     split; [|split; [exact Hf|exact Rn]].
-    split; [exact B1|]. intros d. cbn [s_bk s_bal b_tokens b_surplus set_amount set_surplus set_tokens].
+    split; [exact B1|]. intros d. cbn [s_bk s_bal s_sibs b_tokens b_surplus set_amount set_surplus set_tokens].
     destruct (Rd d) as [R1 _]. pose proof (reserve_le_rsum _ d N). specialize (B2 d). lia.
   - destruct (negb allowed); [discriminate|]. injection H as <-. split; [exact B|split; [exact F|exact N]].
   - injection H as <-. split; [exact B|split; [exact F|exact N]].
   - injection H as <-. split; [exact B|split; [exact F|exact N]].
   - destruct (slash_token (b_tokens (s_bk s)) d slash) as [ts| |] eqn:E; cbn [bind] in H; try discriminate.
     injection H as <-. split; [|split; [exact F|eapply slash_token_nonneg; eauto]]. destruct B as [B1 B2]. split; [exact B1|].
-    intros d'. cbn [with_bk s_bk s_bal set_tokens b_tokens b_surplus]. rewrite (slash_token_rsum _ _ _ _ E d'). apply B2.
+    intros d'. cbn [with_bk s_bk s_bal s_sibs set_tokens b_tokens b_surplus]. rewrite (slash_token_rsum _ _ _ _ E d'). apply B2.
   - injection H as <-. split; [exact B|split; [exact F|exact N]].
   - assert (K : stake_enabled && negb (v_upsert_skip v) = false) by (destruct Hok as [->| ->]; [reflexivity|destruct stake_enabled; reflexivity]).
     rewrite K in H. injection H as <-. split; [exact B|split; [exact F|exact N]].
+  - destruct (withdraw_ids_books _ _ _ _ H Hok B) as [B' (_ & Ft & _ & Ff)].
+    split; [exact B'|]. unfold fee_ok in *. rewrite Ff, Ft. split; [exact F|exact N].
+  - destruct (create_books _ _ _ _ H B) as [B' [Eb _]]. split; [exact B'|]. rewrite Eb. split; [exact F|exact N].
 Qed.
 
 Theorem books_match_bank_with_edits : forall v ops s, Forall (op_okE v) ops -> InvE s -> InvE (run v s ops).
@@ -966,6 +1045,9 @@ Proof.
   - injection H as <-. split; [split; [exact F|split; [exact W|split; [exact N|exact S0]]]|unfold gap; cbn [s_bk s_supply]; lia].
   - assert (K : stake_enabled && negb (v_upsert_skip v) = false) by (destruct Hok as [->| ->]; [reflexivity|destruct stake_enabled; reflexivity]).
     rewrite K in H. injection H as <-. split; [split; [exact F|split; [exact W|split; [exact N|exact S0]]]|lia].
+  - destruct (withdraw_ids_frame _ _ _ _ H) as (Fs & Ft & _ & Ff).
+    split; [|unfold gap; rewrite Fs, Ft; lia]. unfold InvB, fee_ok in *. rewrite Ff, Ft, Fs. split; [exact F|split; [exact W|split; [exact N|exact S0]]].
+  - unfold create in H. inv_ok H. injection H as <-. split; [split; [exact F|split; [exact W|split; [exact N|exact S0]]]|unfold gap; cbn [s_bk s_supply]; lia].
 Qed.
 
 (* Over every such history the supply exceeds the weighted reserves by at most what it did at the
@@ -1042,18 +1124,33 @@ Lemma existsb_eqb_in : forall l x, existsb (Z.eqb x) l = true -> In x l.
 Proof. intros l x H. apply existsb_exists in H. destruct H as (y & Hy & E). assert (x = y) by lia. subst. exact Hy. Qed.
 
 (* an observation accepted by the checker's [books] clause is a state satisfying [Books] *)
+Lemma recorded_total_eq : forall p d,
+  recorded_total p d = rsum (b_tokens (p_bk p)) d + ssum (b_surplus (p_bk p)) d + sibs_total (map fst (p_sibs p)) d.
+Proof. intros p d. unfold recorded_total, all_baskets. cbn [map zsum fold_right]. reflexivity. Qed.
+Lemma sibs_total_absent : forall l d,
+  (forall b, In b l -> (forall t, In t (b_tokens b) -> t_denom t <> d) /\ (forall c, In c (b_surplus b) -> fst c <> d)) ->
+  sibs_total l d = 0.
+Proof.
+  induction l as [|b r IH]; intros d H; [reflexivity|]. rewrite sibs_total_cons, IH by (intros x Hx; apply H; right; exact Hx).
+  destruct (H b (or_introl eq_refl)) as [Ht Hs]. rewrite rsum_absent, ssum_absent by assumption. lia.
+Qed.
 Theorem books_reflects : forall p, books p = true -> (forall d, ~ In d (denoms_of p) -> bal_at p MODULE d = 0) ->
   Books (state_of_post p).
 Proof.
   intros p H Hout. unfold books in H. repeat (apply andb_prop in H; destruct H as [H ?]).
-  rename H0 into Hsur, H1 into Htok, H2 into Hbal.
-  split; [cbn; lia|]. intros d. cbn [state_of_post init_state s_bk s_bal].
+  rename H0 into Hlisted, H1 into Hbal, H2 into Hsibsup.
+  split; [cbn; lia|]. intros d. cbn [state_of_post init_state s_bk s_bal s_sibs].
   change (bal_of_lists (p_bals p) MODULE d) with (bal_at p MODULE d).
   destruct (in_dec Z.eq_dec d (denoms_of p)) as [I|I].
-  - rewrite forallb_forall in Hbal. specialize (Hbal d I). unfold rec_reserve, rec_surplus in Hbal. unfold rsum, ssum. lia.
-  - rewrite (Hout d I), rsum_absent, ssum_absent; [lia| |].
-    + intros c Hc E. rewrite forallb_forall in Hsur. specialize (Hsur c Hc). apply existsb_eqb_in in Hsur. congruence.
-    + intros t Ht E. rewrite forallb_forall in Htok. specialize (Htok t Ht). apply existsb_eqb_in in Htok. congruence.
+  - rewrite forallb_forall in Hbal. specialize (Hbal d I). rewrite recorded_total_eq in Hbal. lia.
+  - assert (A : forall b, In b (all_baskets p) -> (forall t, In t (b_tokens b) -> t_denom t <> d) /\ (forall c, In c (b_surplus b) -> fst c <> d)).
+    { intros b Hb. rewrite forallb_forall in Hlisted. specialize (Hlisted b Hb). apply andb_prop in Hlisted. destruct Hlisted as [L1 L2].
+      rewrite forallb_forall in L1, L2. split.
+      - intros t Ht E. specialize (L1 t Ht). apply existsb_eqb_in in L1. congruence.
+      - intros c Hc E. specialize (L2 c Hc). apply existsb_eqb_in in L2. congruence. }
+    destruct (A (p_bk p) (or_introl eq_refl)) as [A1 A2].
+    rewrite (Hout d I), rsum_absent, ssum_absent, sibs_total_absent; try assumption; [lia|].
+    intros b Hb. apply A. right. exact Hb.
 Qed.
 (* hence: from an accepted observation every model step of a holder keeps the books *)
 Corollary books_clause_sound_step : forall v p o s', books p = true ->
